@@ -3,7 +3,7 @@ package main
 // Stream `buf` (C14): the real dagordering.EventsBuffer driven push by push; every callback
 // invocation is logged.
 //
-//	lim <num|inf> <size|inf>     new buffer with that limit                       -> ok
+//	lim <num|inf> <size|inf> [norel]   new buffer with that limit (norel: without a Released callback) -> ok
 //	conn <ids>                   ids connected from the start                     -> ok
 //	ev <id> l=<lamport> s=<size> p=<ids>   defines an event                       -> ok
 //	failc <tag> <k> | failp <tag> <k>      Check / Process of the copy pushed as number <tag>
@@ -275,9 +275,11 @@ func (b *bufRunner) Step(line string) string {
 	switch f[0] {
 	case "lim":
 		lim := dag.Metric{Num: idx.Event(parseLim(f[1], math.MaxUint32)), Size: parseLim(f[2], math.MaxUint64)}
-		b.buf = dagordering.New(lim, dagordering.Callback{
-			Process: w.process, Released: w.released, Get: w.get, Exists: w.exists, Check: w.check,
-		})
+		cb := dagordering.Callback{Process: w.process, Released: w.released, Get: w.get, Exists: w.exists, Check: w.check}
+		if len(f) > 3 && f[3] == "norel" {
+			cb.Released = nil // the callback is optional
+		}
+		b.buf = dagordering.New(lim, cb)
 		return "ok"
 	case "conn":
 		for _, s := range SplitList(f[1]) {
@@ -456,9 +458,13 @@ func genBuf(r *Rand, n int, tier string, w *bufio.Writer) {
 		for i := range p {
 			p[i] = i
 		}
+		norel := ""
+		if r.Chance(1, 3) {
+			norel = " norel"
+		}
 		for {
 			header(fmt.Sprintf("all-orders k=%d", k))
-			fmt.Fprintf(w, "lim %s %s\nconn 900,901\n", limStr(num), limStr(size))
+			fmt.Fprintf(w, "lim %s %s%s\nconn 900,901\n", limStr(num), limStr(size), norel)
 			writeEvs(w, evs)
 			for _, f := range fails {
 				w.WriteString(f + "\n")
@@ -491,7 +497,11 @@ func genBuf(r *Rand, n int, tier string, w *bufio.Writer) {
 			num, size = math.MaxUint64, math.MaxUint64
 		}
 		header(fmt.Sprintf("random k=%d", k))
-		fmt.Fprintf(w, "lim %s %s\n", limStr(num), limStr(size))
+		if r.Chance(1, 5) {
+			fmt.Fprintf(w, "lim %s %s norel\n", limStr(num), limStr(size))
+		} else {
+			fmt.Fprintf(w, "lim %s %s\n", limStr(num), limStr(size))
+		}
 		if r.Chance(3, 4) {
 			w.WriteString("conn 900,901\n")
 		} else {
